@@ -745,6 +745,149 @@ def m0_generic(chk, fn, env, stiff):
             f"cases covered: {sorted(seen)}; refusal of other chi: {raises}", None, file=U.POISSON, func=q, nontrivial=False)
 
 
+def _inplace_writes(root, env, mats):
+    """stores INTO the storage of one of the solver's matrices among the statements under `root`, local aliases resolved:
+    [(statement, matrix attribute, form, expressions the stored value is computed from)].  Modelled forms: element / slice store and
+    augmented store into `<M>[..]`, `<M>.data[..]`; `<M>.data = / op=`; augmented assignment of a local that denotes `<M>.data`;
+    `out=<M>.data` of a numpy call; `np.copyto(<M>.data, ..)`; `<M>.setdiag(..)`, `<M>.data.fill(..)`.  (A slice `<M>[rows, cols]` of
+    a sparse matrix that is only READ is a copy: a store into that copy is not a store into M.)"""
+    def resolve(e, st):
+        ex = env.x(e, use=st)
+        if env.amb:
+            return None, None
+        b = ex
+        while isinstance(b, ast.Subscript) and isinstance(b.value, (ast.Subscript, ast.Attribute)) and \
+                (isinstance(b.value, ast.Subscript) or b.value.attr == "data"):
+            b = b.value
+        if isinstance(b, ast.Attribute) and b.attr == "data" and src(b.value) in mats:
+            return src(b.value), "data"
+        if ex is b and src(ex) in mats:
+            return src(ex), "obj"
+        return None, None
+    out = []
+    for st in ast.walk(root):
+        if isinstance(st, (ast.Assign, ast.AugAssign)):
+            aug = isinstance(st, ast.AugAssign)
+            for t in (st.targets if not aug else [st.target]):
+                if isinstance(t, ast.Subscript):
+                    m_, kind = resolve(t.value, st)
+                    if m_:
+                        out.append((st, m_, f"store into `{src(t)[:40]}`", [st.value]))
+                elif isinstance(t, ast.Attribute) and t.attr == "data":
+                    m_, kind = resolve(t.value, st)
+                    if m_ and kind == "obj":
+                        out.append((st, m_, f"`{src(t)[:40]} {'op' if aug else ''}= ...`", [st.value]))
+                elif aug and isinstance(t, ast.Name):
+                    ld = ast.Name(id=t.id, ctx=ast.Load())
+                    m_, kind = resolve(ld, st)
+                    if m_ and kind == "data":
+                        out.append((st, m_, f"augmented assignment of `{t.id}`, which denotes `{m_}.data`", [st.value]))
+        elif isinstance(st, ast.Call):
+            stm = _stmt_of(st)
+            for k in st.keywords:
+                if k.arg == "out":
+                    m_, kind = resolve(k.value, stm)
+                    if m_:
+                        out.append((stm, m_, f"`{src(st.func)}(..., out={src(k.value)[:30]})`", list(st.args)))
+            f_ = src(st.func)
+            if f_.split(".")[-1] == "copyto" and f_.split(".")[0] in ("np", "numpy") and st.args:
+                m_, kind = resolve(st.args[0], stm)
+                if m_:
+                    out.append((stm, m_, f"`np.copyto({src(st.args[0])[:30]}, ...)`", list(st.args[1:])))
+            if isinstance(st.func, ast.Attribute) and st.func.attr in ("setdiag", "fill"):
+                m_, kind = resolve(st.func.value, stm)
+                if m_ and (st.func.attr == "setdiag") == (kind == "obj"):
+                    out.append((stm, m_, f"`{src(st.func)[:40]}(...)`", list(st.args)))
+    return out
+
+
+def operator_storage(chk):
+    """F5-operator-storage: the assembled matrices of the solver (the blocks, the theta-independent operator, the m = 0 operator) are
+    read by every solve as the constants the constructors built; the symbolic comparison of the m = 0 operator (`self._stiffness0 =
+    self._stiffnessMatrix`: the SAME object) relies on it.  A store into the storage of one of them inside the mode loop changes
+    every attribute that denotes the same object."""
+    from .C14 import BLOCKS, entry_points
+    mats = set(BLOCKS) | {"self._stiffnessMatrix", "self._stiffness0"}
+    # which attributes denote the same matrix object: `self._Y = self._M` (no copy, no arithmetic, no slice) in a constructor
+    alias = {}
+    for cls_ in (DES, QN):
+        try:
+            fi = flat_view(chk, U.POISSON, cls_, "__init__")
+        except AnalysisError:
+            continue
+        ei = env_of(chk, fi)
+        for n in ast.walk(fi):
+            if isinstance(n, ast.Assign) and len(n.targets) == 1 and src(n.targets[0]) in mats:
+                v = ei.x(n.value, use=n)
+                if isinstance(v, ast.Attribute) and src(v) in mats and src(v) != src(n.targets[0]) and not ei.amb:
+                    alias.setdefault(cls_, []).append((src(n.targets[0]), src(v), n))
+    mod = chk.mod(U.POISSON)
+    found = []
+    seen_keys = set()
+    eps = entry_points(chk)
+    for cls_, m_, callee in eps:
+        try:
+            fn, lp, li, gi = mode_loop(chk, cls_, m_)
+        except AnalysisError:
+            continue
+        env = env_of(chk, fn)
+        for st, mat, form, vals in _inplace_writes(fn, env, mats):
+            seen_keys.add((mat, form))
+            found.append((cls_, m_, fn, lp, env, st, mat, form, vals, li, gi))
+    for cls_, m_, fn, lp, env, st, mat, form, vals, li, gi in found:
+        q = f"{cls_}.{m_}"
+        in_loop = lp is not None and any(st is x for x in ast.walk(lp))
+        pairs = [(y, m0, n) for c2 in ((DES, QN) if cls_ == QN else (DES,)) for (y, m0, n) in alias.get(c2, []) if mat in (y, m0)]
+        partners = sorted({y if m0 == mat else m0 for y, m0, n in pairs})
+        read = [p_ for p_ in partners if lp is not None and any(isinstance(x, ast.Attribute) and src(x) == p_ and isinstance(x.ctx, ast.Load)
+                                                              for x in ast.walk(lp))]
+        # the value stored depends on the mode: it reads a table at the mode index
+        per_mode_val = any(isinstance(x, ast.Subscript) and src(x.slice) in {gi, li} - {None} for v in vals for x in ast.walk(env.x(v, use=st)))
+        construct = f"{q}: {form} writes the storage of {mat}"
+        if in_loop and read and per_mode_val:
+            y, m0, n = pairs[0]
+            # AUDIT: true of the code when (checked) the store goes into the storage of the matrix object itself (not a slice copy of
+            # a sparse matrix), it is inside the mode loop of this entry point (helper methods written back), the value stored is
+            # computed from a per-mode table at the mode index, a constructor of this class binds the second attribute to the same
+            # object without a copy, and the mode loop reads that attribute
+            chk.ob("F5-operator-storage", st, construct, False,
+                   f"inside the mode loop, {form} overwrites the stored values of {mat} with the operator of the current mode; "
+                   f"`{src(n)[:70]}` ({n.lineno}) makes `{read[0]}` the same object, not a copy (in the configurations that run that assignment), and the loop reads `{read[0]}` as the "
+                   "constant operator of the mode m = 0: after the first mode m != 0 solved with this solver object, m = 0 is solved with "
+                   "the matrix of the last m != 0 mode (from the second call of the solve on: wrong flux-surface averaged potential)",
+                   file=U.POISSON, func=q)
+        else:
+            chk.ob("F5-operator-storage", st, construct, None,
+                   f"{form} changes an assembled operator after construction: the comparison of the operators with the equation "
+                   "assumes they are constants; whether every later reader sees the values it needs was not followed" +
+                   (f" ({', '.join(partners)} denote the same object)" if partners else ""), file=U.POISSON, func=q)
+    # methods that are not entry points (and were not written back into one)
+    others = 0
+    for cls_ in (DES, QN):
+        try:
+            cnode = mod.cls(cls_)
+        except AnalysisError:
+            continue
+        for meth in cnode.body:
+            if not isinstance(meth, ast.FunctionDef) or meth.name == "__init__" or any((c_, m2) == (cls_, meth.name) for c_, m2, _ in eps):
+                continue
+            try:
+                f2 = chk.func(U.POISSON, f"{cls_}.{meth.name}")
+            except AnalysisError:
+                continue
+            for st, mat, form, vals in _inplace_writes(f2, env_of(chk, f2), mats):
+                if (mat, form) in seen_keys:         # a helper written back into an entry point: judged there
+                    continue
+                others += 1
+                chk.ob("F5-operator-storage", st, f"{cls_}.{meth.name}: {form} writes the storage of {mat}", None,
+                       f"{form} changes an assembled operator after construction; where `{meth.name}` runs was not followed",
+                       file=U.POISSON, func=f"{cls_}.{meth.name}")
+    if not found and not others:
+        chk.ob("F5-operator-storage", mod.cls(DES), "the assembled operators are constants after construction", True,
+               "no store into the storage of the blocks / the theta-independent operator / the m = 0 operator outside the constructors "
+               "(element and slice stores, .data, out=, copyto, setdiag, fill; local aliases resolved)", file=U.POISSON, func=DES)
+
+
 def m0_operator(chk):
     """the m=0 operator of the quasi-neutrality solver is the assembled operator, minus the adiabatic block for chi=1"""
     from .C14 import operator_blocks, _sym, BLOCKS
